@@ -51,16 +51,20 @@ def binDigits : Nat → Nat → List Nat
   | 0, i => [i % 2]
   | f + 1, i => if i < 2 then [i] else binDigits f (i / 2) ++ [i % 2]
 
-/-- `format(i, "0{n}b")`: zero-padded to `n` digits – never shorter than one digit.
-    `Wavefunction.get_outcome_probs` reverses this string and `bitstring_to_tuple` reverses it back,
-    so this is the tuple a sample of basis state `i` becomes. -/
+/-- `format(i, "0{n}b")`: zero-padded to `n` digits – never shorter than one digit. -/
 def formatBin (i n : Nat) : List Nat :=
   let d := binDigits i i
   List.replicate (n - d.length) 0 ++ d
 
+/-- the tuple a sample of basis state `i` of an `n`-qubit register becomes:
+    `Wavefunction.get_outcome_probs` builds the key `format(i, "0{n}b")[::-1][:n]` (the slice only
+    matters for `n = 0`, where `format` still prints one digit) and `bitstring_to_tuple` reverses
+    it back. -/
+def outcomeTuple (i n : Nat) : Shot := (((formatBin i n).reverse).take n).reverse
+
 /-- `sample_from_wavefunction(wavefunction, n, seed)` given what `rng.choice` drew -/
 def sampleShots (ext : Ext) (k : Nat) (c : Circ) (n : Int) : List Shot :=
-  (ext.draw k c n).map (fun i => formatBin i c.width)
+  (ext.draw k c n).map (fun i => outcomeTuple i c.width)
 
 /-! ### counters and the two kinds of base-class runners -/
 
